@@ -1,0 +1,8 @@
+//go:build verif
+
+package wallet
+
+import "github.com/elnosh/gonuts/wallet/storage"
+
+// VerifWrapDB lets a verification harness interpose on the wallet's storage.
+func (w *Wallet) VerifWrapDB(f func(storage.WalletDB) storage.WalletDB) { w.db = f(w.db) }
